@@ -5,7 +5,7 @@ From Coq Require Import List NArith Bool String.
 From Coq.Strings Require Import Byte.
 From GM Require Import Codec.Packet Topic.MatchSpec Broker.Backend Broker.BackendSpec
   Broker.BackendProofs Broker.BackendProofsPublish Broker.BackendProofsSteps Broker.BackendProofsReplay
-  Broker.BackendProofsHist.
+  Broker.BackendProofsHist Broker.BackendC13.
 Import ListNotations.
 Open Scope N_scope.
 
@@ -41,6 +41,14 @@ Print Assumptions C11_will_accepted.
 Theorem C11_replay : forall cap ops, holds_along replay_ok cap ops.
 Proof. exact replay_along. Qed.
 Print Assumptions C11_replay.
+
+(* ... and ONLY a Subscribe of the connection brings retained replays: the temporary queue (the one replays go to) of a
+   stored session that is resumed starts empty, so every retain = 1 message a connection dequeues answers a Subscribe
+   of that connection (C11_replay: Subscribe is the only step that appends stored retained messages; C06_delivery_step:
+   a Publish appends copies with the flag cleared) *)
+Theorem C11_resume_clean : forall cap ops, holds_along resume_clean_ok cap ops.
+Proof. exact resume_clean_along. Qed.
+Print Assumptions C11_resume_clean.
 
 (* a replayed message leaves the queue through the same Dequeue as a live one: qos = min of its
    stored QoS and the QoS granted to a matching filter (C06_qos) *)
